@@ -3,8 +3,9 @@ CONSTANTS N = 2
           Names = {"", "a"}
           Devs = {}
           InitDags <- Chain2
+          MaxMiss = 1
+          ModeSet = {1, 2, 4}
+          FaultSet = {"none", "cancelFetch"}
           E = 0
-          GenFaults = {"none", "cancelFetch"}
-          GenModes = {1, 2, 4}
           MaxMissing = 0
 VIEW SGView
